@@ -198,7 +198,7 @@ macro_rules! downp {
 // ---------------------------------------------------------------------------------------------
 // fixtures
 // ---------------------------------------------------------------------------------------------
-pub const SCHEMA_TEXT: &str = r#"entity User in [Group] = { age: Long, nick?: String, mgr?: User } tags String;
+pub const SCHEMA_TEXT: &str = r#"entity User in [Group] = { age: Long, nick?: String, mgr?: User, "prénom"?: String } tags String;
 entity Group in [Group];
 entity Doc in [Group] = { owner: User, labels: Set<String>, meta: { pub: Bool, rev?: Long }, ip?: ipaddr } tags Long;
 entity Color enum ["red", "green"];
@@ -206,13 +206,14 @@ namespace NS { entity Thing; }
 action readers;
 action view in [readers] appliesTo { principal: [User], resource: [Doc], context: { n: Long, who?: User } };
 action edit appliesTo { principal: [User], resource: [Doc] };
+action "afficher–tout" appliesTo { principal: [User], resource: [Doc], context: { "clé"?: Long } };
 "#;
 
 /// richer Cedar schema text used as a substitution seed
 pub const SCHEMA_SEED_TEXT: &str = r#"@doc("ns")
 namespace NS {
   type T = { a: Long, b?: Set<String> };
-  entity Thing in [Thing] = { t: T, "k y"?: __cedar::ipaddr } tags String;
+  entity Thing in [Thing] = { t: T, "k y"?: __cedar::ipaddr, "dé"?: Long } tags String;
   entity Color enum ["red", "green"];
   @a("b") action "do", view2 in [Action::"all"] appliesTo { principal: [Thing], resource: [Thing, Color], context: { n: Long, who?: Thing } };
   action all;
@@ -260,6 +261,8 @@ pub const TEMPLATE_TEXT: &str = r#"@a("b") permit(principal == ?principal, actio
 pub const FIXED_PSET_TEXT: &str = r#"@id("p0") permit(principal in Group::"g", action == Action::"view", resource) when { principal.age >= 18 && resource.owner == principal && context.n > 0 };
 @id("p1") forbid(principal, action, resource) when { resource has ip && resource.ip.isLoopback() } unless { principal has nick && principal.nick like "a*" };
 @id("p2") permit(principal, action, resource) when { context has k && context.k == 1 };
+@id("p3") permit(principal, action == Action::"afficher-tout", resource) when { principal.prenom == "x" || resource.ownr == principal || principal is Usr };
+@id("p4") forbid(principal, action == Action::"view", resource) when { context.cle > 0 && Colour::"red" == Color::"rouge" };
 "#;
 
 pub const EXPR_TEXT: &str = r#"if principal.age >= 18 && [1, -2].contains(context.n) then {a: "s\n", "b c": ip("::1")}.a like "s*" else User::"a" in [Group::"g"] || principal has mgr.age"#;
@@ -384,6 +387,9 @@ pub fn build_seeds() -> Result<Vec<Seed>, String> {
     let mut text = |name: &str, s: &str, route: u64| v.push(Seed { name: name.into(), bytes: s.as_bytes().to_vec(), route, kind: "text".into() });
     text("policy-text", POLICIES_TEXT, R_POLICY);
     text("template-text", TEMPLATE_TEXT, R_POLICY);
+    // names that ALMOST match the (partly non-ASCII) names of the fixture schema: exercises the
+    // "did you mean" machinery of validation errors (after seed C20-a2)
+    text("near-miss-policy-text", FIXED_PSET_TEXT, R_POLICY);
     text("expr-text", EXPR_TEXT, R_EXPR);
     text("cedarschema-text", SCHEMA_SEED_TEXT, R_CSCHEMA);
     text("euid-text", "NS::Thing::\"a\\n\\u{e9}\"", R_NAME | R_EXPR);
